@@ -399,20 +399,8 @@ func oracleC04(r *OpRun) {
 					}
 					if !found {
 						sig := "context-discarded"
-						if !allFalse && !allTrue {
+						if r.headMayAllowFailure(x) {
 							sig = "combined-behind-allowFailure-head"
-						}
-						if !known {
-							// a Group context is involved: the head task may belong to a group member that allows failure
-							for _, gc := range x.Ctxs {
-								if gb := r.sc.bind(x.Hook, gc.Binding); gc.Type == "Group" && gb != nil && gb.Kube != nil {
-									for _, m := range groupMembers(r.hookSpec(x.Hook), gb.Kube.Group) {
-										if mb := r.sc.bind(x.Hook, m); mb != nil && mb.Kube.AllowFailure {
-											sig = "combined-behind-allowFailure-head"
-										}
-									}
-								}
-							}
 						}
 						r.e.Viol("C04", "F5", sig, "queue %q: context %s of a binding that does not allow failure was part of failed execution #%d {%s} and of no later successful one", q, id, x.N, strings.Join(identities(x), "; "))
 					}
@@ -609,4 +597,44 @@ func oracleC11(r *OpRun) {
 			}
 		}
 	}
+}
+
+// headMayAllowFailure: the first context of the execution belongs to a binding that allows failure
+// (for a Group context: the named binding or any kubernetes binding of its group, since compaction
+// keeps only the last context of a run of one group).
+func (r *OpRun) headMayAllowFailure(x *Exec) bool {
+	if len(x.Ctxs) < 2 {
+		return false
+	}
+	c := x.Ctxs[0]
+	b := r.sc.bind(x.Hook, c.Binding)
+	if b == nil {
+		return false
+	}
+	grp := ""
+	if b.Kube != nil {
+		if b.Kube.AllowFailure {
+			return true
+		}
+		grp = b.Kube.Group
+	} else {
+		if b.Sched.AllowFailure {
+			return true
+		}
+		grp = b.Sched.Group
+	}
+	if c.Type == "Group" && grp != "" {
+		h := r.hookSpec(x.Hook)
+		for _, kb := range h.Kube {
+			if kb.Group == grp && kb.AllowFailure {
+				return true
+			}
+		}
+		for _, sb := range h.Sched {
+			if sb.Group == grp && sb.AllowFailure {
+				return true
+			}
+		}
+	}
+	return false
 }
